@@ -112,6 +112,15 @@ CHECKS = {
    design_ref='5 (C09)',
    note=TB + ' Root nodes with <= 2/3 moves, <= 3 iterations; wall-clock promptness and thread behaviour are outside.',
    technique='symbolic execution of rustc MIR into z3; contracts for nested searches and iterations; symbolic limits, clock and cut points; replay on the real binary'),
+ 'C14': dict(
+   category='other',
+   text=('The real search / iter_deep / log_uci_info are executed from MIR with alpha_beta_start replaced by the iteration contract of C09 (justified by the limits_exceeded lemma, re-decided here): '
+         'the k-th info line carries depth k, no gaps or repeats, and with only a depth limit N every depth 1..N is reported before bestmove, for all limits and cut points. '
+         'The real get_pv is executed on an abstract game with an arbitrary transposition table (symbolic presence and legality, all stored-move cases): the returned line is exactly the chain of stored moves '
+         'from the searched position while present and legal, the position is restored, no panic. log_uci_info runs without panic for every score and pv length.'),
+   design_ref='5 (C14)',
+   note=TB + ' Byte-level syntax of the info line is outside (format template only). Depth-reporting counterexamples are replayed on the real binary (`go depth 3`).',
+   technique='symbolic execution of rustc MIR into z3; iteration contract; arbitrary finite-map model of the transposition table; replay on the real binary'),
 }
 NA = {
  'C10': 'quantifies over OS-thread interleavings (relaxed AtomicBool + JoinHandle::is_finished); MIR has no thread semantics and Kani does not model concurrency - outside solver-based checking of the real code (DESIGN.md 6)',
